@@ -275,7 +275,7 @@ Definition w_case_k3 : c15case :=
 Lemma spec_witnesses :
   spec_C15 w_case_k1 (run_C15 w_case_k1) = true /\ spec_C15 w_case_k2 (run_C15 w_case_k2) = true /\
   spec_C15 w_case_k3 (run_C15 w_case_k3) = true /\
-  map fst (run_inst_obs empty_model false [(true, mkS false w_w1); (false, mkS false (mkV 2 [(2, [mkED 1 false true [fS 1] []])])); (true, mkS false w_w1)] []) = [true; false; true].
+  map fst (run_inst_obs empty_model empty_model false [(true, mkS false w_w1); (false, mkS false (mkV 2 [(2, [mkED 1 false true [fS 1] []])])); (true, mkS false w_w1)] []) = [true; false; true].
 Proof. repeat split; vm_compute; reflexivity. Qed.
 
 (* ------------------------------------------------------------------ readers that address values by identifier *)
@@ -347,3 +347,49 @@ Proof.
   intros ns e f a Ha. pose proof (address_stable (hd zero_oracle os) (s_sys s) M (s_ver s) ns e f a Hwf Ha) as H. rewrite Hu in H. exact H.
 Qed.
 
+
+(* ------------------------------------------------------------------ instances: memory = store *)
+Lemma keeps_ids_refl : forall M, wf_model (m_nss M) -> keeps_ids M M.
+Proof.
+  intros M Hwf. split; [apply ext_stable_b; apply model_ext_refl|]. split; [apply wf_model_b; exact Hwf|].
+  destruct Hwf as [Hn [_ [Hw _]]]. apply ext_newfields_b; [apply model_ext_refl | exact Hn|].
+  intros n Hin. rewrite Forall_forall in Hw. apply (Hw n Hin).
+Qed.
+
+Theorem run_inst_chain : forall steps os stored mem running,
+  wf_model (m_nss stored) -> (running = true -> mem = stored) ->
+  inst_chain stored (run_inst_obs stored mem running steps os).
+Proof.
+  induction steps as [|[is_start s] steps IH]; intros os stored mem running Hwf Hmem; cbn [run_inst_obs]; [exact I|].
+  destruct (negb is_start && negb running) eqn:Hskip.
+  - cbn [inst_chain]. split; [reflexivity | apply IH; assumption].
+  - set (o := oracle_of (hd (mkOT [] [] []) os)).
+    destruct (upd o (s_sys s) stored (s_ver s)) as [W e] eqn:Hu.
+    destruct (upd_keeps_ids o (s_sys s) stored (s_ver s) Hwf) as [Hk HwW]. rewrite Hu in Hk, HwW. cbn [fst] in Hk, HwW.
+    destruct (is_none e && negb (storage_refuses (s_ver s))) eqn:Hok.
+    + (* accepted and stored *)
+      assert (Hrun : (if is_start then true else true) = true) by (destruct is_start; reflexivity).
+      rewrite Hrun. cbn [inst_chain]. split; [reflexivity|]. split; [discriminate|]. split; [exact Hk|].
+      apply IH; [exact HwW | reflexivity].
+    + destruct is_start.
+      * cbn [inst_chain]. split; [reflexivity|]. apply IH; [exact Hwf | reflexivity].
+      * cbn [negb andb] in Hskip. apply negb_false_iff in Hskip. specialize (Hmem Hskip). subst mem.
+        cbn [inst_chain]. split; [reflexivity|]. split; [reflexivity|]. split; [apply keeps_ids_refl; exact Hwf|].
+        apply IH; [exact Hwf | reflexivity].
+Qed.
+
+(* a version the data model rules accept and the database refuses: E1 and e1 both with index(f1) *)
+Definition w_ix1 : version := mkV 1 [(2, [mkED 1 false true [fS 1] [[1]]])].
+Definition w_ix_clash : version := mkV 2 [(2, [mkED 1 false true [fS 1] [[1]]; mkED 1001 false true [fS 1] [[1]]])].
+Definition w_ix3 : version := mkV 3 [(2, [mkED 1 false true [fS 1] [[1]]; mkED 2 false true [fS 1] []])].
+Definition w_case_storage : c15case :=
+  CInst [(true, mkS false w_ix1); (false, mkS false w_ix_clash); (false, mkS false w_ix3); (true, mkS false w_ix_clash); (true, mkS false w_ix3)]
+        [w_none; w_none; w_none; w_none; w_none].
+Lemma storage_witness :
+  snd (upd zero_oracle false (fst (upd zero_oracle false empty_model w_ix1)) w_ix_clash) = None /\
+  storage_refuses w_ix_clash = true /\ storage_refuses w_ix3 = false /\
+  map fst (run_inst_obs empty_model empty_model false
+             [(true, mkS false w_ix1); (false, mkS false w_ix_clash); (false, mkS false w_ix3); (true, mkS false w_ix_clash); (true, mkS false w_ix3)] [])
+    = [true; false; true; false; true] /\
+  spec_C15 w_case_storage (run_C15 w_case_storage) = true.
+Proof. repeat split; vm_compute; reflexivity. Qed.
